@@ -1399,6 +1399,13 @@ class Executor:
             base = x if x is not None else SliceV(None, 0, 0, 0)
         else:
             raise Unsupported('slice of ' + xt['k'])
+        def w64(v, o):
+            # slice bounds may be of any integer type; widen to 64 bits with the operand's signedness
+            if v is None or isinstance(v, int) or v.size() == 64:
+                return v
+            tid = fn.vtypes.get(o['n']) if o.get('k') == 'v' else o.get('t')
+            return to64(v, self.p.T(tid))
+        lo, hi, mx = w64(lo, ins['low']), w64(hi, ins['high']), w64(mx, ins['max'])
         lo = 0 if lo is None else lo
         hi = base.len if hi is None else hi
         cap = base.cap if mx is None else mx
@@ -1585,6 +1592,10 @@ class Executor:
         if isinstance(src, str):
             raise Unsupported('copy from string')
         dl, sl = dst.len, src.len
+        if not isinstance(dl, int):
+            dl = self.concretize(st, dl)
+        if not isinstance(sl, int):
+            sl = self.concretize(st, sl)
         if not (isinstance(dl, int) and isinstance(sl, int)):
             raise Unsupported('copy with symbolic length')
         n = min(dl, sl)
